@@ -59,11 +59,11 @@ def comp_text(body):
 NAMED = {"a": 4, "a*": 4, "b": 3, "b*": 3, "c": 0, "X": 7, "X*": 7, "Y": 10, "Y*": 10, "domains(X)": 7, "domains(Y*)": 10}
 
 
-def compile_text(text):
+def compile_text(text, fmt="pil"):
     b = progen.Bundle()
     b.texts["top.comp"] = text
     b.entry = "top"
-    return impl.compile_bundle(b, "pil")
+    return impl.compile_bundle(b, fmt)
 
 
 def denote_text(drv, r):
@@ -145,10 +145,10 @@ def run(st, tier, seed):
             q = " ".join(["%d%s" % (m, c) for m, c in pre] + [wtext + wc] + ["%d%s" % (m, c) for m, c in post])
             items = " ".join(before + ['"%s"' % q] + after)
             if kind == "base":
-                return 'sequence x = "%s" : %d\nstrand X1 = x a\n' % (q, L)
+                return 'sequence x = "%s" : %d\nstrand X1 = x a\nstructure T1 = X1 : %d.\n' % (q, L, L + 4)
             if kind == "super":
-                return 'sequence x = %s : %d\nstrand X1 = x a\n' % (items, L)
-            return 'strand X1 = %s : %d\n' % (items, max(L, 0))
+                return 'sequence x = %s : %d\nstrand X1 = x a\nstructure T1 = X1 : %d.\n' % (items, L, L + 4)
+            return 'strand X1 = %s : %d\nstructure T1 = X1 : %d.\n' % (items, max(L, 0), max(L, 0))
         if kind == "strand" and L == 0:
             continue
         t1 = comp_text(body("?")); t2 = comp_text(body(str(w)))
@@ -165,6 +165,11 @@ def run(st, tier, seed):
             if d1 is None or d1 != d2:
                 res.violations.append({"what": "wildcard form and explicit form compile to different designs", "input": {"wildcard": t1, "explicit": t2},
                                        "observed": pilio.design_diff(d1 or {}, d2 or {}), "sig": "C10:stmt-differs", "cmd": "pepper-compiler"})
+        from props.c18 import canon_text
+        q1, q2 = compile_text(t1, "des"), compile_text(t2, "des")
+        if not (q1["ok"] and q2["ok"]) or canon_text(q1["text"]) != canon_text(q2["text"]):
+            res.violations.append({"what": "wildcard form and explicit form compile to different .des specifications", "input": {"wildcard": t1, "explicit": t2},
+                                   "observed": [q1.get("text", q1.get("exc")), q2.get("text", q2.get("exc"))], "sig": "C10:stmt-differs-des", "cmd": "pepper-compiler --des"})
         if i == 0:
             res.sample({"wildcard": t1, "explicit": t2})
         # malformed neighbours must be rejected
